@@ -110,6 +110,8 @@ pub fn generate(seed: u64, tier: Tier) -> MuxFaultPlan {
         h2_clients: vec![c],
         sndbufs: if rng.below(2) == 0 { Some(vec![0, 4608, 9216, 32768]) } else { None },
         settle_ns: 0,
+        soft_stop_at_ns: None,
+        h2_deadline_secs: None,
     };
     MuxFaultPlan { mux, victim, mcause, head_len, resp_len, deadline_ns: deadline }
 }
